@@ -78,3 +78,15 @@ def terms_of(v):
             terms.append((k, x))
     walk(v, 1)
     return wrap, terms
+
+
+
+def keep_matrix(itp, a, kw):
+    """contract of scipy.sparse.csr_matrix / coo_matrix used as a format conversion: the matrix itself.  Anything beyond the plain
+    one-argument conversion (dtype=..., shape=..., a (data, (row, col)) triple) is not this contract"""
+    from .core import CheckerError
+    extra = {k: v for k, v in kw.items() if k != 'copy' and v is not None}
+    if len(a) != 1 or extra:
+        raise CheckerError('sparse format conversion called with %d positional arguments and %s: conversion of values / shape is not modelled'
+                           % (len(a), sorted(extra)))
+    return a[0]
